@@ -7,6 +7,7 @@
 -/
 import Ramses.Model.Codec
 import Ramses.Model.Recv
+import Ramses.Gen.Maps
 namespace Ramses
 
 inductive Json where
@@ -160,7 +161,10 @@ inductive Parsed where
 def modelledCodes : List String :=
   ["0004", "0008", "0009", "000A", "1060", "10A0", "1260", "12B0", "1F09", "2309", "2349", "30C9", "2249", "22C9", "3150"]
 
-def isModelled (code : List Char) : Bool := inS modelledCodes code
+def modelledCodesB' : List String :=
+  ["0002", "0005", "0006", "000C", "0016", "0100", "1030", "1081", "1090", "1100", "12F0", "1300", "1F41", "1FC9", "2E04", "313F", "3B00"]
+
+def isModelled (code : List Char) : Bool := inS (modelledCodes ++ modelledCodesB') code
 
 def zonMode (k : List Char) : Option (List Char) := (lookupS Gen.zonModeMap k).map (·.toList)
 
@@ -170,6 +174,284 @@ def jDtm (v : List Char) : Py Json :=
     | none => .null
     | some d => .str (toDecW 4 d.year ++ '-' :: toDecW 2 d.month ++ '-' :: toDecW 2 d.day ++ 'T' :: toDecW 2 d.hour ++
         ':' :: toDecW 2 d.minute ++ ':' :: toDecW 2 d.second)
+
+
+/-! ### a second batch of codes: discovery (0005, 000C), schedules' change counter (0006), binding
+(1FC9), system mode and time (2E04, 313F), DHW mode (1F41), TPI parameters (1100), mixing-valve
+parameters (1030), actuator sync (3B00) and a few one-liners -/
+
+def jNat (n : Nat) : Json := .int (Int.ofNat n)
+
+def showDevId : DevId → List Char
+  | .non => nonId
+  | .dev t n => toDecW 2 t ++ ':' :: toDecW 6 n
+
+def pyInt16 (v : List Char) : Py Nat :=
+  match ofHex v with | some n => .ok n | none => .error .valueError
+
+/-- `MAP[k]` on one of the library's attribute maps, for a 2-character key -/
+def mapGet (m : List (String × String)) (k : List Char) : Py (List Char) :=
+  match lookupS m k with | some v => .ok v.toList | none => .error .keyError
+
+def optTemp (key : String) (v : List Char) : Py Dict := (jTemp v).map fun t => [(key, t)]
+
+def p0005Elem (f : Frame) (seqx : List Char) : Py Dict := do
+  let mask ← if f.srcType = Gen.devTypeUFC.toList then hexToFlag8 (slice seqx 6 8) true
+    else if f.blen = 3 then hexToFlag8 (slice seqx 4 6) true
+    else do
+      let a ← hexToFlag8 (slice seqx 4 6) true
+      let b ← hexToFlag8 (slice seqx 6 8) true
+      pure (a ++ b)
+  let k := slice seqx 2 4
+  -- `ZON_ROLE_MAP.get(k, DEV_ROLE_MAP[k])`: the default is evaluated first
+  let dn ← mapGet Gen.devRoleFwd k
+  let cls := match lookupS Gen.zonRoleFwd k with | some v => v.toList | none => dn
+  pure [("zone_type", .str k), ("zone_mask", .arr (mask.map jNat)), ("zone_class", .str cls)]
+
+def p0005 (f : Frame) (arr : Bool) : Py Parsed :=
+  let p := f.payload
+  if f.verb = vRQ then do
+    let dn ← mapGet Gen.devRoleFwd (slice p 2 4)
+    pure (.dict [("zone_type", .str (slice p 2 4)), ("zone_class", .str dn)])
+  else if arr then do
+    pyAssert (f.verb = vI && f.srcType = Gen.devTypeRND'.toList)
+    let xs ← mapM' (p0005Elem f) (chunks 8 p)
+    pure (.list xs)
+  else (p0005Elem f p).map .dict
+
+def p0006 (f : Frame) : Py Parsed :=
+  let p := f.payload
+  if p.drop 2 = s "FFFFFF" then .ok (.dict []) else do
+    pyAssert (slice p 2 4 = s "05")
+    if p.drop 4 = s "FFFF" then pure (.dict [("change_counter", .null)]) else do
+      let n ← pyInt16 (p.drop 4)
+      pure (.dict [("change_counter", jNat n)])
+
+/-- `is_short_000C(payload)` -/
+def isShort000C (p : List Char) : Py Bool :=
+  if p.length ≠ 72 then .ok (p.length % 12 ≠ 0)
+  else if [12, 24, 36, 48, 60].all (fun i => slice p i (i + 4) = p.take 4) then .ok false
+  else if [12, 22, 32, 42, 52, 62].all (fun i => slice p i (i + 2) = slice p 2 4) then .ok true
+  else .error .pktInvalid
+
+def p000CIdx (f : Frame) : Py Dict :=
+  let p := f.payload
+  let seqx := p.take 2
+  let role := slice p 2 4
+  if f.srcType = Gen.devTypeUFC.toList then do
+    let n ← pyInt16 seqx
+    pyAssert (n < 8)
+    pure [("ufh_idx", .str seqx), ("zone_idx", if slice p 4 6 = s "7F" then .null else .str (slice p 4 6))]
+  else if role = Gen.devRoleDHW.toList || role = Gen.devRoleHTG.toList then do
+    -- `assert int(seqx, 16) < 1 if role == DHW else 2`
+    if role = Gen.devRoleDHW.toList then do
+      let n ← pyInt16 seqx
+      pyAssert (n < 1)
+    pure [("domain_id", .str (if seqx = s "00" then Gen.domFA.toList else Gen.domF9.toList))]
+  else if role = Gen.devRoleAPP.toList then do
+    let n ← pyInt16 seqx
+    pyAssert (n < 1)
+    pure [("domain_id", .str Gen.domFC.toList)]
+  else do
+    let n ← pyInt16 seqx
+    pyAssert (n < 16)
+    pure [("zone_idx", .str seqx)]
+
+/-- `_parser(seqx)` of 000C: (device id, the element's third byte) -/
+def p000CElem (p seqx : List Char) : Py (List Char × List Char) := do
+  pyAssert (seqx.take 2 = p.take 2)
+  let n ← pyInt16 (seqx.take 2)
+  pyAssert (n < 16)
+  pyAssert (slice seqx 4 6 = s "7F" || seqx.drop 6 ≠ s "FFFFFF")
+  let d ← hexIdToDevId (slice seqx 6 12)
+  pure (showDevId d, slice seqx 4 6)
+
+def p000C (f : Frame) : Py Parsed := do
+  let p := f.payload
+  let role := slice p 2 4
+  let devRole ← if role = Gen.devRoleHTG.toList && p.take 2 = s "01" then pure Gen.devRoleHT1Name.toList
+    else mapGet Gen.devRoleFwd role
+  let idx ← p000CIdx f
+  let result : Dict := dictMerge [("zone_type", .str role)] (idx ++ [("device_role", .str devRole)])
+  if f.verb = vRQ then pure (.dict result) else do
+    let short ← isShort000C p
+    let elems := if short then (chunks 10 (p.drop 2)).map (fun e => p.take 2 ++ e) else chunks 12 p
+    let devs ← mapM' (p000CElem p) elems
+    pure (.dict (dictSet result "devices" (.arr ((devs.filter (fun d => d.2 ≠ s "7F")).map fun d => .str d.1))))
+
+def p1030Elem (seqx : List Char) : Py (String × Json) := do
+  pyAssert (slice seqx 2 4 = s "01")
+  let name ← match lookupS [("20", "unknown_20"), ("21", "unknown_21"), ("C8", "max_flow_setpoint"), ("C9", "min_flow_setpoint"),
+      ("CA", "valve_run_time"), ("CB", "pump_run_time"), ("CC", "boolean_cc")] (seqx.take 2) with
+    | some n => pure n
+    | none => throw .keyError
+  let v ← pyInt16 (seqx.drop 4)
+  pure (name, jNat v)
+
+def p1030 (f : Frame) : Py Parsed := do
+  pyAssert (f.blen = 7 || f.blen = 16)
+  let ps ← mapM' p1030Elem (chunks 6 (f.payload.drop 2))
+  pure (.dict (ps.foldl (fun d kv => dictSet d kv.1 kv.2) []))
+
+def inRange4 (n lo hi : Nat) : Bool := n % 4 = 0 && lo ≤ n / 4 && n / 4 < hi
+
+def p1100 (f : Frame) : Py Parsed :=
+  let p := f.payload
+  let cidx : Dict := if p.take 1 = ['F'] then [("domain_id", .str (p.take 2))] else []
+  if f.srcType = Gen.devTypeJIM.toList then do
+    pyAssert (f.blen = 19)
+    pure (.dict [("ordinal", .str (s "0x" ++ slice p 2 8)), ("blob", .str (p.drop 8))])
+  else if f.verb = vRQ && f.blen = 1 then .ok (.dict cidx)
+  else do
+    let a ← pyInt16 (slice p 2 4)
+    pyAssert (inRange4 a 1 13)
+    let b ← pyInt16 (slice p 4 6)
+    pyAssert (inRange4 b 1 31)
+    let c ← pyInt16 (slice p 6 8)
+    pyAssert (inRange4 c 0 16)
+    let r0 : Dict := [("cycle_rate", jNat (a / 4)), ("min_on_time", .num false (divInt b 4)), ("min_off_time", .num false (divInt c 4)),
+      ("_unknown_0", .str (slice p 8 10))]
+    let r1 : Dict ← if f.blen > 5 then do
+        let w := slice p 10 14
+        let t ← hexToTemp w
+        -- `pbw is None or 1.5 <= pbw <= 3.0` (a temperature is k/100: 150 ≤ k ≤ 300)
+        let okRange := match t, ofHex w with
+          | .none, _ => true
+          | .num _ _, some n => 150 ≤ n && n ≤ 300
+          | _, _ => false
+        pyAssert okRange
+        pure (r0 ++ [("proportional_band_width", jsonOfTemp t), ("_unknown_1", .str (p.drop 14))])
+      else pure r0
+    pure (.dict (dictMerge cidx r1))
+
+def p1F41 (f : Frame) : Py Parsed := do
+  let p := f.payload
+  let m := slice p 4 6
+  let tmp := Gen.zonModeTEMPORARY.toList
+  pyAssert (inS (Gen.zonModeMap.map (·.1)) m)
+  pyAssert (m = tmp || f.blen = 6)
+  pyAssert (m ≠ tmp || f.blen = 12)
+  pyAssert (slice p 6 12 = s "FFFFFF")
+  let r0 : Dict := [("mode", match zonMode m with | some x => .str x | none => .null)]
+  let r1 : Dict ← if slice p 2 4 ≠ s "FF" then
+      (if slice p 2 4 = s "00" then pure (r0 ++ [("active", Json.bool false)])
+       else if slice p 2 4 = s "01" then pure (r0 ++ [("active", Json.bool true)])
+       else throw .keyError)
+    else pure r0
+  if m = tmp then do
+    let u ← jDtm (slice p 12 24)
+    pure (.dict (r1 ++ [("until", u)]))
+  else pure (.dict r1)
+
+def p1FC9Elem (p seqx : List Char) : Py Json := do
+  let k := seqx.take 2
+  if k ≠ s "90" then pyAssert (seqx.drop 6 = slice p 6 12)
+  if ¬ (inS ["21", "63", "66", "67", "6C", "90"] k || inS [Gen.domF6, Gen.domF9, Gen.domFA, Gen.domFB, Gen.domFC, Gen.domFF] k) then do
+    let n ← pyInt16 k
+    pyAssert (n < 16)
+  let d ← hexIdToDevId (seqx.drop 6)
+  pure (.arr [.str k, .str (slice seqx 2 6), .str (showDevId d)])
+
+def p1FC9 (f : Frame) : Py Parsed := do
+  let p := f.payload
+  let phase : Json ←
+    if f.verb = vI && (f.dst = f.src || f.dst = allId) then pure (Json.str (s "offer"))
+    else if f.verb = vW && f.src ≠ f.dst then pure (Json.str (s "accept"))
+    else if f.verb = vI then pure (Json.str (s "confirm"))
+    else if f.verb = vRP then pure Json.null
+    else throw .pktInvalid
+  let isConfirm := match phase with | .str x => x = s "confirm" | _ => false
+  if p.length = 2 && isConfirm then pure (.dict [("phase", phase), ("bindings", .arr [.arr [.str p]])]) else do
+    pyAssert (f.blen ≥ 6 && f.blen % 6 = 0)
+    let bs ← mapM' (p1FC9Elem p) (chunks 12 p)
+    pure (.dict [("phase", phase), ("bindings", .arr bs)])
+
+def p2E04 (f : Frame) : Py Parsed := do
+  let p := f.payload
+  let m := p.take 2
+  if f.blen = 8 then pyAssert (inS (Gen.sysModeMap.map (·.1)) m)
+  else if f.blen = 16 then do
+    let n ← pyInt16 m
+    pyAssert (n ≤ 15 || m = Gen.domFF.toList)
+    pyAssert (slice p 16 18 = Gen.sysModeAuto.toList || slice p 16 18 = Gen.sysModeCustom.toList)
+    pyAssert (slice p 30 32 = Gen.sysModeDayOff.toList)
+  else throw .assertionError
+  let name ← mapGet Gen.sysModeMap m
+  if m = Gen.sysModeAuto.toList || m = Gen.sysModeHeatOff.toList || m = Gen.sysModeAutoWithReset.toList then
+    pure (.dict [("system_mode", .str name)])
+  else do
+    let u ← if slice p 14 16 ≠ s "00" then jDtm (slice p 2 14) else pure Json.null
+    pure (.dict [("system_mode", .str name), ("until", u)])
+
+def p313F (f : Frame) : Py Parsed := do
+  let p := f.payload
+  let u := slice p 2 4
+  pyAssert (f.srcType ≠ Gen.devTypeCTL.toList || u = s "F0" || u = s "F9" || u = s "FC")
+  pyAssert (¬ (f.srcType = Gen.devTypeDTS.toList || f.srcType = Gen.devTypeDT2.toList) || u = s "38")
+  pyAssert (f.srcType ≠ Gen.devTypeRFG'.toList || u = s "60")
+  let d ← jDtm (slice p 4 18)
+  let n ← pyInt16 (slice p 4 6)
+  pure (.dict [("datetime", d), ("is_dst", if n / 128 % 2 = 1 then .bool true else .null), ("_unknown_0", .str u)])
+
+def p3B00 (f : Frame) : Py Parsed := do
+  let p := f.payload
+  pyAssert (f.blen = 2)
+  let want := if f.srcType = Gen.devTypeCTL.toList || f.srcType = Gen.devTypePRG.toList then Gen.domFC.toList else s "00"
+  pyAssert (p.take 2 = want)
+  pyAssert (p.drop 2 = s "C8")
+  let cidx : Dict ←
+    if f.verb = vI && (f.srcType = Gen.devTypeCTL.toList || f.srcType = Gen.devTypePRG.toList) && f.src = f.dst then do
+      pyAssert (p.take 2 = Gen.domFC.toList)
+      pure [("domain_id", Json.str Gen.domFC.toList)]
+    else do
+      pyAssert (p.take 2 = s "00")
+      pure []
+  let b ← hexToBool (p.drop 2)
+  pure (.dict (cidx ++ [("actuator_sync", match b with | none => .null | some x => .bool x)]))
+
+def parserB (f : Frame) (arr : Bool) : Option (Py Parsed) :=
+  let p := f.payload
+  let code := f.code
+  if code = s "0002" then some (
+    if f.srcType = Gen.devTypeHCW.toList then do
+      pyAssert (p = s "03020105")
+      pure (.dict [("_unknown", .str p)])
+    else do
+      let t ← jTemp (slice p 2 6)
+      pure (.dict [("temperature", t), ("_unknown", .str (p.drop 6))]))
+  else if code = s "0005" then some (p0005 f arr)
+  else if code = s "0006" then some (p0006 f)
+  else if code = s "000C" then some (p000C f)
+  else if code = s "0016" then some (
+    if f.verb = vRQ then .ok (.dict []) else do
+      let n ← pyInt16 (slice p 2 4)
+      pure (.dict [("rf_strength", jNat (min (n / 5 + 1) 5)), ("rf_value", jNat n)]))
+  else if code = s "0100" then some (
+    if f.verb = vRQ && f.blen = 1 then .ok (.dict []) else do
+      let l ← hexToStr (slice p 2 6)
+      pure (.dict [("language", .str l), ("_unknown_0", .str (p.drop 6))]))
+  else if code = s "1030" then some (p1030 f)
+  else if code = s "1081" then some ((optTemp "setpoint" (p.drop 2)).map .dict)
+  else if code = s "1090" then some (do
+    pyAssert (f.blen = 5)
+    let n ← pyInt16 (p.take 2)
+    pyAssert (n < 2)
+    let a ← jTemp (slice p 2 6)
+    let b ← jTemp (slice p 6 10)
+    pure (.dict [("temperature_0", a), ("temperature_1", b)]))
+  else if code = s "1100" then some (p1100 f)
+  else if code = s "12F0" then some ((optTemp "dhw_flow_rate" (p.drop 2)).map .dict)
+  else if code = s "1300" then some (
+    if p.drop 2 = s "09F6" then .ok (.dict [("pressure", .null)]) else (optTemp "pressure" (p.drop 2)).map .dict)
+  else if code = s "1F41" then some (p1F41 f)
+  else if code = s "1FC9" then some (p1FC9 f)
+  else if code = s "2E04" then some (p2E04 f)
+  else if code = s "313F" then some (p313F f)
+  else if code = s "3B00" then some (p3B00 f)
+  else none
+
+def modelledCodesB : List String :=
+  ["0002", "0005", "0006", "000C", "0016", "0100", "1030", "1081", "1090", "1100", "12F0", "1300", "1F41", "1FC9", "2E04", "313F", "3B00"]
 
 def parser (f : Frame) (arr : Bool) : Py Parsed :=
   let p := f.payload
@@ -270,7 +552,9 @@ def parser (f : Frame) (arr : Bool) : Py Parsed :=
             pure (dictSet r1 "until" u)
         else pure r1
       pure (.dict r2)
-  else .error .notImplemented
+  else match parserB f arr with
+    | some r => r
+    | none => .error .notImplemented
 
 /-- `str.isnumeric()` on the 3-char seqn -/
 def seqnNumeric (q : List Char) : Bool := q ≠ [] && allB uniDigit q
@@ -328,7 +612,7 @@ def decodeWith (f : Frame) (arr : Bool) (idx : Py Idx) : Py Json :=
 /-- does evaluating `_pkt_idx` (during `repr(pkt)`, where an AssertionError is swallowed) reach
     `pkt._has_array`?  If not, the parser's own `msg._has_array` is the first access. -/
 def idxTouchesArray (c : HCore) : Bool :=
-  if isCode c "0005" then true
+  if isCode c "0005" then false        -- `_ctx` of 0005 / 000C is payload[:4]: `repr(pkt)` never asks for `_idx`
   else if isCode c "0009" && c.srcType = Gen.devTypeOTB.toList then false
   else if isCode c "000C" || isCode c "0404" || isCode c "0418" || isCode c "1100" || isCode c "3220" then false
   else if inS Gen.codeIdxAreComplex c.code then false
